@@ -275,7 +275,7 @@ func TestC02_WireOrder(t *testing.T) {
 		"streaming decoder; oracle: frames of a packet contiguous, attachments in place, per emitter sequence numbers 0,1,2,.. in order, nothing lost; "+
 		"non-trivial = >= 2 emitters and a multi-frame packet adjacent on the wire to another emitter's packet")
 	rapidGuard(t, "C02", c02CheckWire)
-	runRapid(t, c02CheckWire, tierN(2400, 80000), func(t *rapid.T) {
+	runRapid(t, c02CheckWire, tierN(8000, 80000), func(t *rapid.T) {
 		c := genC02Case(t)
 		f, nt := evalC02Wire(c)
 		ev.Case(c, nt, c.class())
